@@ -312,6 +312,55 @@ def run(prop, tier):
                     rid += 1
             except Exception as ex:
                 V.violation("C16 %s raised %s" % (op, type(ex).__name__), dict(model=name, history=[[op, arg]], error=str(ex)[:300]))
+    # ================= databook year columns and sparse series (DataYears.tla)
+    P = at.demo("udt", do_run=False)
+    D0 = P.data
+    base_years = [float(y) for y in D0.tvec]
+    extra = [base_years[0] - 1.0, base_years[-1] + 1.0, base_years[-1] + 2.0]
+    tkey = list(D0.tdve.keys())[0]
+    val_at = lambda y: 1000.0 + (y - base_years[0]) * 12.5 + 0.123456789
+    cfg = "SPECIFICATION Spec\nCONSTANTS\n Years = {%s}\n Cols0 = {}\n Data0 = {}\n Forms = {\"array\", \"list\"}\n MaxLen = %d\nINVARIANT Representable\nCHECK_DEADLOCK FALSE\n" % (",".join(str(int(y)) for y in extra), 4 if thorough else 3)
+    r, hists = C.enumerate_cases(["DataYears"], "DataYears", cfg, timeout=1200)
+    cov["states"] += r.distinct
+    cov["transitions"] += r.generated
+    full = [h for h in hists if h["hist"]]
+    nmax = 160 if thorough else 48
+    if len(full) > nmax:
+        withlist = [h for h in full if any(f == "list" for _, _, f in h["hist"]) and h["hist"][-1][0] != "change_tvec"]
+        rest = [h for h in full if h not in withlist]
+        withlist = [withlist[i] for i in rng.permutation(len(withlist))[: nmax // 2]]
+        full = withlist + [rest[i] for i in rng.permutation(len(rest))[: nmax - len(withlist)]]
+    cov["databook_year_histories"] = len(full)
+    for h in full:
+        D = sc.dcp(D0)
+        lab_ = dict(model="udt databook", history=[[op, sorted(arg), f] for op, arg, f in h["hist"]])
+        try:
+            for (op, arg, form) in h["hist"]:
+                ts_ = D.tdve[tkey].ts[0]
+                if op == "change_tvec":
+                    yrs = sorted(base_years + [float(y) for y in arg])
+                    D.change_tvec(np.array(yrs) if form == "array" else list(yrs))
+                elif op == "set_value":
+                    ts_.insert(float(list(arg)[0]), val_at(float(list(arg)[0])))
+                elif op == "remove_value":
+                    ts_.remove(float(list(arg)[0]))
+                elif op == "roundtrip":
+                    D = at.ProjectData.from_spreadsheet(D.to_spreadsheet(), P.framework)
+            ts_ = D.tdve[tkey].ts[0]
+            want = h["content"]
+            got_cols = sorted({str(int(y)) for tab in D.tables() for y in tab.tvec if float(y) not in base_years})
+            records.append(dict(id=rid, kind="content", want=sorted(str(int(y)) for y in want["cols"]), got=got_cols))
+            index[rid] = dict(label=lab_, what="extra year columns of the databook tables after the history")
+            rid += 1
+            records.append(dict(id=rid, kind="content", want=sorted(str(int(y)) for y in want["data"]), got=sorted(str(int(y)) for y in ts_.t if float(y) not in base_years)))
+            index[rid] = dict(label=lab_, what="extra years with a value in the tracked series after the history")
+            rid += 1
+            D2 = at.ProjectData.from_spreadsheet(D.to_spreadsheet(), P.framework)
+            records.append(dict(id=rid, kind="same", a=dg(data_content(D)), b=dg(data_content(D2))))
+            index[rid] = dict(label=lab_, what="databook vs rebuilt from its own export (visible content)", before=str(ts_content(ts_))[:200], after=str(ts_content(D2.tdve[tkey].ts[0]))[:200])
+            rid += 1
+        except Exception as ex:
+            V.violation("C16 databook history raised %s" % type(ex).__name__, dict(error=str(ex)[:300], **lab_))
     # ================= round trips of every kind of file, content and behaviour
     for name in (["udt", "tb_simple", "hiv"] + (["usdt", "hypertension", "tb", "diabetes"] if thorough else [])):
         P = at.demo(name, do_run=False)
